@@ -4,7 +4,8 @@
 cd /verif
 for d in seeded/${1:-C*}; do
   id=$(basename $d)
-  prop=$(python3 -c "import json;print(json.load(open('$d/meta.json'))['detection']['caught_by'].split()[2])")
+  prop=$(python3 -c "import json;c=json.load(open('$d/meta.json'))['detection'].get('caught_by');print(c.split()[2] if c else '')")
+  [ -z "$prop" ] && { echo "SKIP $id (recorded as not caught)"; continue; }
   r=$(tools/try_patch.sh /verif/$d/patch.diff $prop 2>&1 | grep RESULT)
   if echo "$r" | grep -q "exit=1 VIOLATION"; then echo "CAUGHT $id $prop $(echo $r | grep -o 'check=[a-z_@.0-9:]*')"; else echo "MISSED $id $prop :: $r"; fi
 done
